@@ -363,7 +363,7 @@ func (e *Env) bin(n *EBin) Val {
 			return Val{K: r}
 		}
 		if a.S == "Str" && b.S == "Str" && n.Op == "+" {
-			e.fail("string concatenation in contracts unsupported")
+			return Val{T: fmt.Sprintf("(str-cat %s %s)", a.T, b.T), S: "Str", GT: a.GT}
 		}
 		var t types.Type
 		a, b, t = e.unify(a, b)
@@ -457,6 +457,17 @@ func (e *Env) asIdx(v Val) string {
 
 func (e *Env) sliceExpr(xv Val, n *ESlice) Val {
 	g := e.g
+	if xv.S == "Str" {
+		lo := g.ilit64(0)
+		if n.Lo != nil {
+			lo = e.asIdx(e.tr(n.Lo))
+		}
+		hi := "(slen " + xv.T + ")"
+		if n.Hi != nil {
+			hi = e.asIdx(e.tr(n.Hi))
+		}
+		return Val{T: fmt.Sprintf("(str-sub %s %s %s)", xv.T, lo, hi), S: "Str", GT: xv.GT}
+	}
 	if _, ok := typeUnder(xv.GT).(*types.Slice); !ok {
 		e.fail("slice expression on %s", xv.GT)
 	}
@@ -692,6 +703,9 @@ func (e *Env) call(n *ECall) Val {
 		}
 		a0 := g.heapGet(g.init, "$alloc", "Int")
 		return Val{T: fmt.Sprintf("(>= %s %s)", ref, a0), S: "Bool", GT: types.Typ[types.Bool]}
+	case "substr":
+		v := e.tr(n.Args[0])
+		return Val{T: fmt.Sprintf("(str-sub %s %s %s)", v.T, e.asIdx(e.tr(n.Args[1])), e.asIdx(e.tr(n.Args[2]))), S: "Str", GT: v.GT}
 	case "sameArray":
 		a := e.tr(n.Args[0])
 		b := e.tr(n.Args[1])
